@@ -29,6 +29,7 @@ EXPLANATION = (
     "worker position (426+226 / 226; negative witness F3 at 'waiting for the data connection'); this run injects ABOR "
     "at every loop iteration of every transfer script and compares replies/survival with the model."
 )
+GENERATED_OBLIGATIONS = ["Server.dispatcherOneCommandAtATime (handlers of pipelined lines start in order, one at a time)"]
 ASSUMPTIONS = ["one transfer at a time per session", "in-memory network; block size 64"]
 
 BS = 64
@@ -205,6 +206,13 @@ async def after_abor(ctl, state, res):
             pass
         res["data_eof"] = dr.at_eof()
         sp = dw.transport.peer
+        # the ABOR may still be waiting for the handler of the command before it (commands are handled one at a time):
+        # look at the data connection when the ABOR has been answered
+        waited = 0.0
+        while waited < 5.0 and not any(x == "226" for x, _ in c.replies[state.get("n_replies", 0) :]) and not c.eof:
+            await asyncio.sleep(0.05)
+            waited += 0.05
+            await loop.settle()
         res["server_data_closed"] = bool(sp.closing or sp.closed)
         dw.close()
         c.data = None
